@@ -17,7 +17,7 @@ Which manager entry points a family uses comes from tr/hash_cfg.py (undefined sy
 context-layer object).  The translator is deliberately dumb and FAILS CLOSED: a construct it
 does not recognise raises LaneCfgError (reported by the check as a broken correspondence);
 what the fields must satisfy is decided by Model/LaneMgr.v's cfg_wf, in Coq."""
-import os, re
+import os, re, subprocess, tempfile
 
 import hash_cfg
 
@@ -50,73 +50,99 @@ def _expr(s):
     return tot
 
 
-def preprocess(text, defines):
-    """nasm source -> active lines (comments stripped): %ifidn __OUTPUT_FORMAT__ (elf64 true),
-    %if <number>, %if NAME >= N, %ifdef/%ifndef (feature macros of the build are defined),
-    %else, %endif; %rep/%assign lines are kept as they are."""
-    out = []
-    stack = []          # [active_before, taken]
-    active = True
-    for raw in text.split("\n"):
-        line = raw.split(";", 1)[0].rstrip()
-        t = line.strip()
-        m = re.match(r"%(ifidn|ifdef|ifndef|if|elif|else|endif)\b(.*)", t)
-        if m:
-            kw, rest = m.group(1), m.group(2).strip()
-            if kw in ("ifidn", "ifdef", "ifndef", "if"):
-                if kw == "ifidn":
-                    a, b = [x.strip() for x in rest.split(",", 1)]
-                    cond = (a == "__OUTPUT_FORMAT__" and b == "elf64")
-                elif kw == "ifdef":
-                    cond = True
-                elif kw == "ifndef":
-                    cond = False
-                else:
-                    mm = re.fullmatch(r"(\w+)\s*(>=|<=|==|>|<)\s*(\w+)", rest)
-                    if re.fullmatch(r"\d+", rest):
-                        cond = int(rest) != 0
-                    elif mm:
-                        def val(x):
-                            if re.fullmatch(r"(0x)?[0-9a-fA-F]+", x) and (x.isdigit() or x.lower().startswith("0x")):
-                                return _num(x)
-                            if x not in defines:
-                                raise LaneCfgError("%%if on unknown macro %s" % x)
-                            return defines[x]
-                        a, op, b = val(mm.group(1)), mm.group(2), val(mm.group(3))
-                        cond = {">=": a >= b, "<=": a <= b, "==": a == b, ">": a > b, "<": a < b}[op]
-                    else:
-                        raise LaneCfgError("%%if condition not understood: %r" % rest)
-                stack.append([active, cond])
-                active = active and cond
-            elif kw == "else":
-                if not stack:
-                    raise LaneCfgError("%else without %if")
-                before, taken = stack[-1]
-                active = before and not taken
-                stack[-1][1] = True
-            elif kw == "elif":
-                raise LaneCfgError("%elif not supported")
-            else:
-                if not stack:
-                    raise LaneCfgError("%endif without %if")
-                active = stack.pop()[0]
+_REGS = set("rax rbx rcx rdx rsi rdi rbp rsp r8 r9 r10 r11 r12 r13 r14 r15".split())
+_NASM_DEFS = ["-f", "elf64", "-DINTEL_CET_ENABLED", "-DSAFE_DATA", "-DSAFE_PARAM", "-DAS_FEATURE_LEVEL=10"]
+_pp_cache = {}
+
+
+def preprocess(repo, path):
+    """The assembler's own view of a manager file: `nasm -E` (the build's format, defines and include
+    path) expands every macro, %if / %elif / %else / %error on assemble-time constants (the
+    START_FIELDS/FIELD arithmetic of the included *_datastruct.asm / *_job.asm), %rep, %assign and the
+    threshold / status constants - so none of that source-level structure matters to the translator.
+    Only the ROLE names survive: the file's own `%define <name> <register or other role>` lines are
+    commented out first and DWORD()/BYTE()/WORD() are made to expand to themselves, so the text still
+    says `mov unused_lanes, [state + _unused_lanes]` and not `mov rbx, [rdi + _unused_lanes]` (field
+    offsets are `equ` symbols, which the preprocessor leaves alone).
+    -> (normalised instruction lines, assemble-time _LANE_DATA_size)"""
+    with open(path, errors="replace") as fh:
+        text = fh.read()
+    key = (path, hash(text))
+    if key in _pp_cache:
+        return _pp_cache[key]
+    src = text.split("\n")
+    last_inc = max([k for k, l in enumerate(src) if re.match(r"\s*%include\b", l)] or [-1])
+    alias, out = set(), []
+    for k, l in enumerate(src):
+        m = re.match(r"\s*%define\s+(\w+)\s+(\w+)\s*(;.*)?$", l)
+        if m and (m.group(2) in _REGS or m.group(2) in alias):
+            alias.add(m.group(1))
+            out.append(";" + l)
+        else:
+            out.append(l)
+        if k == last_inc:
+            for w in ("DWORD", "BYTE", "WORD"):
+                out += ["%%undef %s" % w, "%%define %s(r) %s(r)" % (w, w)]
+    out.append("LANE_DATA_SIZE_IS _LANE_DATA_size")
+    d = os.path.dirname(path)
+    with tempfile.NamedTemporaryFile("w", suffix=".asm", prefix="lanecfg-", dir="/var/tmp", delete=False) as fh:
+        fh.write("\n".join(out) + "\n")
+        tmp = fh.name
+    try:
+        pr = subprocess.run(["nasm", "-E"] + _NASM_DEFS + ["-I" + repo + "/", "-I" + d + "/", "-I" + os.path.join(repo, "include") + "/", tmp],
+                            stdout=subprocess.PIPE, stderr=subprocess.PIPE, text=True, timeout=120, errors="replace")
+    finally:
+        os.unlink(tmp)
+    if pr.returncode != 0:
+        raise LaneCfgError("%s: nasm -E fails: %s" % (os.path.basename(path), " ".join(pr.stderr.split())[:300]))
+    lines, lds = [], None
+    for raw in pr.stdout.split("\n"):
+        l = re.sub(r"\s+", " ", raw.split(";", 1)[0]).strip()
+        if not l or l.startswith("%line"):
             continue
-        if active and t:
-            out.append(re.sub(r"\s+", " ", t))
-    return out
+        m = re.fullmatch(r"LANE_DATA_SIZE_IS (\w+)", l)
+        if m:
+            lds = int(m.group(1)) if m.group(1).isdigit() else None
+            continue
+        l = re.sub(r"\s*,\s*", ", ", l)
+        # a label and an instruction on one line
+        m = re.fullmatch(r"(\w+:) (.+)", l)
+        if m and not m.group(2).startswith(("equ", "=")):
+            lines += [m.group(1), m.group(2)]
+        else:
+            lines.append(l)
+    if lds is None:
+        raise LaneCfgError("%s: _LANE_DATA_size is not an assemble-time constant" % os.path.basename(path))
+    _pp_cache[key] = (lines, lds)
+    return lines, lds
 
 
 def _body(lines, sym):
-    """the instructions of function `sym` up to its `return:` label, and the data lines after it"""
+    """-> (instructions of function `sym` up to the next section, {data label: [values]})"""
     try:
         i = lines.index(sym + ":")
     except ValueError:
         raise LaneCfgError("label %s: not found" % sym)
-    try:
-        j = lines.index("return:", i)
-    except ValueError:
-        raise LaneCfgError("%s: no return: label" % sym)
-    return lines[i + 1:j], lines[j:]
+    j = i + 1
+    while j < len(lines) and not lines[j].startswith("[section"):
+        j += 1
+    body = lines[i + 1:j]
+    data, cur = {}, None
+    for l in lines[j:]:
+        m = re.fullmatch(r"(\w+):", l)
+        if m:
+            cur = m.group(1)
+            data[cur] = []
+            continue
+        m = re.fullmatch(r"d[qd] (.+)", l)
+        if m and cur is not None:
+            try:
+                data[cur] += [_num(x) for x in m.group(1).split(",")]
+            except ValueError:
+                pass
+    if "return:" not in body or "ret" not in body[body.index("return:"):]:
+        raise LaneCfgError("%s: no return: label / ret" % sym)
+    return body, data
 
 
 def _one(pat, lines, what, sym, allow_none=False):
@@ -136,10 +162,56 @@ def _lowbits(mask, what):
     return k
 
 
-def _scan_and_min(body, tail, sym):
+def _prod(a, b, lds):
+    """`I * size` / `size*I` with size = _LANE_DATA_size -> I (None if neither factor is the size)"""
+    a, b = _num(a), _num(b)
+    if b == lds:
+        return a
+    if a == lds:
+        return b
+    return None
+
+
+def _lane_slot(lines, index, lds, sym, what):
+    """is `lane_data` the address of ldata[<index>] in these lines - imul+lea, or one scaled lea?"""
+    if "imul lane_data, %s, %d" % (index, lds) in lines and "lea lane_data, [state + _ldata + lane_data]" in lines:
+        return True
+    if "lea lane_data, [state + _ldata + %d*%s]" % (lds, index) in lines or "lea lane_data, [state + _ldata + %s*%d]" % (index, lds) in lines:
+        return True
+    return False
+
+
+def _job_slot_forms(index, lds):
+    """the ways ldata[<index>].job_in_lane is addressed directly"""
+    return ["[state + _ldata + %d*%s + _job_in_lane]" % (lds, index), "[state + _ldata + %s*%d + _job_in_lane]" % (index, lds),
+            "[state + _ldata + _job_in_lane + %d*%s]" % (lds, index)]
+
+
+def _null_exit(body, k, sym):
+    """the conditional jump body[k] leaves the function returning NULL: to the return_null trampoline
+    (xor job_rax ; jmp return), or straight to `return` with rax zeroed just before the compare"""
+    m = re.fullmatch(r"j\w+ (\w+)", body[k])
+    tgt = m.group(1)
+    if tgt == "return_null":
+        if "return_null:" not in body:
+            raise LaneCfgError("%s: jump to a return_null label that does not exist" % sym)
+        t = body.index("return_null:")
+        if body[t + 1:t + 3] != ["xor job_rax, job_rax", "jmp return"] and body[t + 1:t + 3] != ["xor DWORD(job_rax), DWORD(job_rax)", "jmp return"]:
+            raise LaneCfgError("%s: return_null does not return NULL" % sym)
+        return
+    if tgt == "return":
+        j = k - 1
+        while j >= 0 and re.match(r"(cmp|test|bt) ", body[j]):
+            j -= 1
+        if j >= 0 and body[j] in ("xor job_rax, job_rax", "xor DWORD(job_rax), DWORD(job_rax)"):
+            return
+        raise LaneCfgError("%s: jump to the epilogue without a zeroed return value" % sym)
+    raise LaneCfgError("%s: exit %r not understood" % (sym, body[k]))
+
+
+def _scan_and_min(body, data, sym):
     """facts of the min search / subtraction block"""
     r = {}
-    # lens[] loads of the min search (first occurrence of each offset)
     loaded = {}
     W = None
     for l in body:
@@ -164,7 +236,6 @@ def _scan_and_min(body, tail, sym):
     if offs[0] != 0 or any(offs[k] + loaded[offs[k]] != offs[k + 1] for k in range(len(offs) - 1)):
         raise LaneCfgError("%s: min search does not cover a prefix of lens[]: %s" % (sym, loaded))
     r["scan_bytes"] = nbytes
-    # element width: scalar loads say it; vector code says it by the min instruction
     if W is None:
         if any(re.match(r"v?pminud ", l) for l in body):
             W = 32
@@ -173,7 +244,12 @@ def _scan_and_min(body, tail, sym):
     if W not in (32, 64):
         raise LaneCfgError("%s: cannot tell the lens[] element width" % sym)
     r["W"] = W
-    # the stores of the subtraction cover the same prefix
+    # unsigned minimum: cmovb chains / pminu*; the scalar chain must start from lens0 and visit every loaded word
+    scal = [l for l in body if re.fullmatch(r"cmovb idx, lens\d", l)]
+    if scal and (len(scal) != nbytes // (W // 8) - 1 or "mov idx, lens0" not in body):
+        raise LaneCfgError("%s: scalar min chain does not visit every loaded lens[] word" % sym)
+    if any(re.match(r"cmov(a|ae|be|g|l|ge|le|nb|na)\w* idx, lens", l) for l in body):
+        raise LaneCfgError("%s: min search uses an unexpected comparison" % sym)
     stored = {}
     for l in body:
         for pat, sz in ((r"mov \[state \+ _lens \+ (\d+)\*4\], DWORD\(lens\d\)", 4), (r"mov \[state \+ _lens \+ (\d+)\*8\], lens\d", 8),
@@ -185,55 +261,61 @@ def _scan_and_min(body, tail, sym):
         raise LaneCfgError("%s: subtraction stores %s differ from min-search loads %s" % (sym, stored, loaded))
     _, m = _one(r"and idx, (0x[0-9A-Fa-f]+)", body, "and idx, mask", sym)
     r["idx_bits"] = _lowbits(_num(m.group(1)), sym + " idx mask")
-    # cleared low bits: scalar `and len2, ~0xF`, or the vector mask constant
     _, m = _one(r"and len2, ~(0x[0-9A-Fa-f]+)", body, "", sym, allow_none=True)
     if m:
         r["clear_bits"] = _lowbits(_num(m.group(1)), sym + " len2 mask")
-        _, m2 = _one(r"shr len2, (\d+)", body, "shr len2", sym)
-        r["shift"] = int(m2.group(1))
     else:
         _, m = _one(r"v?pand [xy]mm\d+, (?:[xy]mm\d+, )?\[rel (\w+)\]", body, "vector length mask", sym)
         lab = m.group(1)
-        k, _m = _one(re.escape(lab) + r":", tail, "mask constant " + lab, sym)
-        mm = re.fullmatch(r"dq (0x[0-9A-Fa-f]+), (0x[0-9A-Fa-f]+)", tail[k + 1]) if k + 1 < len(tail) else None
-        if not mm or _num(mm.group(2)) != 0:
+        vals = data.get(lab)
+        if not vals or len(vals) < 2 or vals[1] != 0:
             raise LaneCfgError("%s: mask constant %s not understood" % (sym, lab))
-        v = _num(mm.group(1))
+        v = vals[0]
         low = (v & -v).bit_length() - 1
-        if v != (((1 << 64) - 1) >> low << low) & (((1 << W) - 1)) and v != ((1 << W) - 1) >> low << low:
+        if v != ((1 << W) - 1) >> low << low:
             raise LaneCfgError("%s: mask constant %s = 0x%x is not ~(2^k-1) over the element" % (sym, lab, v))
         r["clear_bits"] = low
-        _, m2 = _one(r"shr len2, (\d+)", body, "shr len2", sym)
-        r["shift"] = int(m2.group(1))
-    _, m = _one(r"call (\w+)", body, "kernel call", sym, allow_none=True)
+    _, m2 = _one(r"shr len2, (\d+)", body, "shr len2", sym)
+    r["shift"] = int(m2.group(1))
+    if len({mm.group(1) for l in body for mm in [re.fullmatch(r"shr len2, (\d+)", l)] if mm}) != 1:
+        raise LaneCfgError("%s: len2 is shifted by different amounts" % sym)
     r["kernels"] = [mm.group(1) for l in body for mm in [re.fullmatch(r"call (\w+)", l)] if mm]
     return r
 
 
-def _retire(body, sym):
-    """facts of the len_is_0 block"""
+def _retire(body, lds, sym):
+    """facts of the len_is_0 block (any order of its independent loads and stores)"""
     try:
         k = body.index("len_is_0:")
     except ValueError:
         raise LaneCfgError("%s: no len_is_0: label" % sym)
-    blk = body[k + 1:]
+    blk = body[k + 1:body.index("return:")] if "return:" in body[k:] else body[k + 1:]
     r = {}
-    if "mov qword [lane_data + _job_in_lane], 0" not in blk:
-        raise LaneCfgError("%s: the retire block does not clear job_in_lane" % sym)
+    via_reg = _lane_slot(blk, "idx", lds, sym, "retire") and "mov job_rax, [lane_data + _job_in_lane]" in blk and \
+        "mov qword [lane_data + _job_in_lane], 0" in blk
+    direct = any("mov job_rax, " + f in blk and "mov qword " + f + ", 0" in blk for f in _job_slot_forms("idx", lds))
+    if not (via_reg or direct):
+        raise LaneCfgError("%s: the retire block does not fetch and clear job_in_lane[idx]" % sym)
     _, m = _one(r"shl unused_lanes, (\d+)", blk, "", sym, allow_none=True)
     if m:
-        if "or unused_lanes, idx" not in blk or "mov [state + _unused_lanes], unused_lanes" not in blk:
+        if "mov unused_lanes, [state + _unused_lanes]" not in blk or "or unused_lanes, idx" not in blk or \
+                "mov [state + _unused_lanes], unused_lanes" not in blk:
             raise LaneCfgError("%s: push onto unused_lanes not understood" % sym)
         r["push_bits"], r["stack_bits"] = int(m.group(1)), 64
     else:
         _, m = _one(r"shl lane, (\d+)", blk, "push onto unused_lanes", sym)
-        if "or lane, idx" not in blk or not any(l.startswith("MEM_VPSLLDDQ") for l in blk) or "mov [state + _unused_lanes], lane" not in blk:
+        if "mov lane, [state + _unused_lanes]" not in blk or "or lane, idx" not in blk or "mov [state + _unused_lanes], lane" not in blk or \
+                not any(re.fullmatch(r"vmovdqu \w+, \[\(state \+ _unused_lanes\)-1\]", l) for l in blk) or \
+                not any(re.fullmatch(r"vmovdqu \[\(state \+ _unused_lanes\)\], \w+", l) for l in blk):
             raise LaneCfgError("%s: byte-stack push not understood" % sym)
         r["push_bits"], r["stack_bits"] = int(m.group(1)), 256
     dec = ("sub dword [state + _num_lanes_inuse], 1" in blk or
-           ("sub num_lanes_inuse, 1" in blk and "mov [state + _num_lanes_inuse], DWORD(num_lanes_inuse)" in blk))
+           ("sub num_lanes_inuse, 1" in blk and "mov [state + _num_lanes_inuse], DWORD(num_lanes_inuse)" in blk and
+            "mov DWORD(num_lanes_inuse), [state + _num_lanes_inuse]" in blk))
     if not dec:
         raise LaneCfgError("%s: num_lanes_inuse is not decremented on the len_is_0 path" % sym)
+    if any(re.match(r"j\w+ ", l) for l in blk):
+        raise LaneCfgError("%s: the retire block branches" % sym)
     r["retire_idle"] = None
     _, m = _one(r"mov dword \[state \+ _lens \+ 4\*idx\], (0x[0-9A-Fa-f]+)", blk, "", sym, allow_none=True)
     if m:
@@ -241,158 +323,180 @@ def _retire(body, sym):
     return r
 
 
-def parse_submit(path, sym, defines):
-    lines = preprocess(_read(path), defines)
-    body, tail = _body(lines, sym)
+def parse_submit(repo, path, sym):
+    lines, lds = preprocess(repo, path)
+    body, data = _body(lines, sym)
+    if "len_is_0:" not in body:
+        raise LaneCfgError("%s: no len_is_0: label" % sym)
+    pre = body[:body.index("len_is_0:")]
     r = {"sym": sym}
     # pop
-    if "mov unused_lanes, [state + _unused_lanes]" in body:
-        _, m = _one(r"shr unused_lanes, (\d+)", body, "shr unused_lanes", sym)
+    if "mov unused_lanes, [state + _unused_lanes]" in pre:
+        _, m = _one(r"shr unused_lanes, (\d+)", pre, "shr unused_lanes", sym)
         r["ent_bits"], r["stack_bits"] = int(m.group(1)), 64
-        _, ma = _one(r"and lane, (0x[0-9A-Fa-f]+)", body, "", sym, allow_none=True)
-        if "movzx lane, BYTE(unused_lanes)" in body:
+        _, ma = _one(r"and lane, (0x[0-9A-Fa-f]+)", pre, "", sym, allow_none=True)
+        if "movzx lane, BYTE(unused_lanes)" in pre:
             r["pop_bits"] = min(8, _lowbits(_num(ma.group(1)), sym + " lane mask")) if ma else 8
-        elif "mov lane, unused_lanes" in body and ma:
+        elif "mov lane, unused_lanes" in pre and ma:
             r["pop_bits"] = _lowbits(_num(ma.group(1)), sym + " lane mask")
         else:
             raise LaneCfgError("%s: pop of unused_lanes not understood" % sym)
-        if "mov [state + _unused_lanes], unused_lanes" not in body:
+        if "mov [state + _unused_lanes], unused_lanes" not in pre:
             raise LaneCfgError("%s: popped stack is not stored back" % sym)
-    elif "mov lane, [state + _unused_lanes]" in body and any(l.startswith("MEM_VPSRLDDQ") for l in body):
-        _, ma = _one(r"and lane, (0x[0-9A-Fa-f]+)", body, "and lane, mask", sym)
+    elif "mov lane, [state + _unused_lanes]" in pre and \
+            any(re.fullmatch(r"vmovdqu \w+, \[\(state \+ _unused_lanes\) \+ 1\]", l) for l in pre) and \
+            any(re.fullmatch(r"vmovdqu \[\(state \+ _unused_lanes\)\], \w+", l) for l in pre):
+        _, ma = _one(r"and lane, (0x[0-9A-Fa-f]+)", pre, "and lane, mask", sym)
         r["ent_bits"], r["stack_bits"], r["pop_bits"] = 8, 256, _lowbits(_num(ma.group(1)), sym + " lane mask")
     else:
         raise LaneCfgError("%s: pop of unused_lanes not understood" % sym)
     # pack
-    if "mov [state + _lens + 4*lane], DWORD(len)" in body:
-        _, m = _one(r"shl len, ?(\d+)", body, "shl len", sym)
-        if "or len, lane" not in body:
+    if "mov [state + _lens + 4*lane], DWORD(len)" in pre:
+        _, m = _one(r"shl len, ?(\d+)", pre, "shl len", sym)
+        if "or len, lane" not in pre:
             raise LaneCfgError("%s: lane is not or-ed into the length word" % sym)
         r["pack"], r["pack_shift"], r["pack_W"] = "PackShiftOr", int(m.group(1)), 32
-    elif "mov [state + _lens + 4 + 8*lane], DWORD(len)" in body:
+    elif "mov [state + _lens + 4 + 8*lane], DWORD(len)" in pre:
         r["pack"], r["pack_shift"], r["pack_W"] = "PackHighField", 32, 64
     else:
         raise LaneCfgError("%s: store of the length word not understood" % sym)
-    if "mov DWORD(len), [job + _len]" not in body or "mov [lane_data + _job_in_lane], job" not in body:
-        raise LaneCfgError("%s: job length / job_in_lane handling not understood" % sym)
-    if not ("add dword [state + _num_lanes_inuse], 1" in body or
-            ("add num_lanes_inuse, 1" in body and "mov [state + _num_lanes_inuse], DWORD(num_lanes_inuse)" in body)):
+    if "mov DWORD(len), [job + _len]" not in pre:
+        raise LaneCfgError("%s: the job length is not loaded as a dword" % sym)
+    if not ((_lane_slot(pre, "lane", lds, sym, "submit") and "mov [lane_data + _job_in_lane], job" in pre) or
+            any("mov " + f + ", job" in pre for f in _job_slot_forms("lane", lds))):
+        raise LaneCfgError("%s: job_in_lane[lane] := job not understood" % sym)
+    if "mov p, [job + _buffer]" not in pre or "mov [state + _args_data_ptr + 8*lane], p" not in pre:
+        raise LaneCfgError("%s: data pointer of the lane not understood" % sym)
+    if not ("add dword [state + _num_lanes_inuse], 1" in pre or
+            ("add num_lanes_inuse, 1" in pre and "mov [state + _num_lanes_inuse], DWORD(num_lanes_inuse)" in pre and
+             "mov DWORD(num_lanes_inuse), [state + _num_lanes_inuse]" in pre)):
         raise LaneCfgError("%s: num_lanes_inuse is not incremented" % sym)
-    # run rule: the compare in front of the first `jne return_null`
-    k, _m = _one(r"jne return_null", body, "jne return_null", sym)
-    m1 = re.fullmatch(r"cmp unused_lanes, (0x[0-9A-Fa-f]+)", body[k - 1])
-    m2 = re.fullmatch(r"cmp num_lanes_inuse, (\d+)", body[k - 1])
+    # run rule: the compare in front of the first conditional exit
+    k, _m = _one(r"jne (return_null|return)", pre, "conditional NULL exit", sym)
+    m1 = re.fullmatch(r"cmp unused_lanes, (0x[0-9A-Fa-f]+)", pre[k - 1])
+    m2 = re.fullmatch(r"cmp num_lanes_inuse, (\d+)", pre[k - 1])
     if m1:
         r["run"] = ("RunStackEq", _num(m1.group(1)))
     elif m2:
         r["run"] = ("RunInuseEq", int(m2.group(1)))
     else:
-        raise LaneCfgError("%s: run condition %r not understood" % (sym, body[k - 1]))
-    if any(re.fullmatch(r"j\w+ return_null", l) for l in body[k + 1:]):
-        raise LaneCfgError("%s: more than one exit to return_null" % sym)
-    r.update(_scan_and_min(body[k + 1:], tail, sym))
-    r.update(_retire(body, sym))
-    # layout only (not part of the model): row stride of the transposed digest, in words
-    _, m = _one(r"v?pextr[dq] \[state \+ _args_digest \+ ([48])\*lane \+ 1\*([0-9*]+)\], xmm\d+, 1", body, "digest row stride", sym)
+        raise LaneCfgError("%s: run condition %r not understood" % (sym, pre[k - 1]))
+    _null_exit(body, k, sym)
+    if any(re.fullmatch(r"j\w+ (return_null|return)", l) for l in pre[k + 1:]) or any(re.match(r"j\w+ ", l) for l in pre[:k]):
+        raise LaneCfgError("%s: unexpected branch structure" % sym)
+    loop = pre[k + 1:]
+    if [l for l in loop if re.match(r"j\w+ ", l)] != ["jz len_is_0"]:
+        raise LaneCfgError("%s: unexpected branches in the min search: %s" % (sym, [l for l in loop if re.match(r"j\w+ ", l)]))
+    r.update(_scan_and_min(loop, data, sym))
+    r.update(_retire(body, lds, sym))
+    _, m = _one(r"v?pextr[dq] \[state \+ _args_digest \+ ([48])\*lane \+ 1\*([0-9*]+)\], xmm\d+, 1", pre, "digest row stride", sym)
     r["digest_stride"] = _expr(m.group(2)) // int(m.group(1))
     return r
 
 
-def parse_flush(path, sym, defines):
-    lines = preprocess(_read(path), defines)
-    body, tail = _body(lines, sym)
+def parse_flush(repo, path, sym):
+    lines, lds = preprocess(repo, path)
+    body, data = _body(lines, sym)
     r = {"sym": sym}
-    k, _m = _one(r"j[zc] return_null", body, "exit to return_null", sym)
+    if "len_is_0:" not in body or "copy_lane_data:" not in body:
+        raise LaneCfgError("%s: no len_is_0: / copy_lane_data: label" % sym)
+    k, _m = _one(r"j[zc] (return_null|return)", body, "conditional NULL exit", sym)
     head = body[:k + 1]
-    if body[k] == "jz return_null" and (body[k - 1] in ("cmp dword [state + _num_lanes_inuse], 0", "cmp num_lanes_inuse, 0")):
+    if body[k].startswith("jz ") and body[k - 1] in ("cmp dword [state + _num_lanes_inuse], 0", "cmp num_lanes_inuse, 0"):
         if body[k - 1] == "cmp num_lanes_inuse, 0" and "mov DWORD(num_lanes_inuse), [state + _num_lanes_inuse]" not in head:
             raise LaneCfgError("%s: emptiness test not understood" % sym)
         r["empty"] = ("EmptyInuse0", 0)
-    elif body[k] == "jc return_null" and re.fullmatch(r"bt unused_lanes, ([0-9+ ]+)", body[k - 1]) and \
+    elif body[k].startswith("jc ") and re.fullmatch(r"bt unused_lanes, ([0-9+ ]+)", body[k - 1]) and \
             "mov unused_lanes, [state + _unused_lanes]" in head:
         r["empty"] = ("EmptyBit", _expr(re.fullmatch(r"bt unused_lanes, ([0-9+ ]+)", body[k - 1]).group(1)))
     else:
         raise LaneCfgError("%s: emptiness test %r / %r not understood" % (sym, body[k - 1], body[k]))
-    if any(re.fullmatch(r"j\w+ return_null", l) for l in body[k + 1:]):
-        raise LaneCfgError("%s: more than one exit to return_null" % sym)
-    rest = body[k + 1:]
+    _null_exit(body, k, sym)
+    c = body.index("copy_lane_data:")
+    z = body.index("len_is_0:")
+    if not (k < c < z) or any(re.fullmatch(r"j\w+ (return_null|return)", l) for l in body[k + 1:z]):
+        raise LaneCfgError("%s: unexpected branch structure" % sym)
     # find a lane with a non-null job: idx := the highest occupied among 1..n-1, else 0
-    try:
-        c = rest.index("copy_lane_data:")
-    except ValueError:
-        raise LaneCfgError("%s: no copy_lane_data: label" % sym)
-    find = rest[:c]
+    find = body[k + 1:c]
     if not find or find[0] != "xor idx, idx":
         raise LaneCfgError("%s: lane search does not start from idx = 0" % sym)
-    cm = [l for l in find if l.startswith("cmovne idx,")]
-    reps = [int(m.group(1)) for l in find for m in [re.fullmatch(r"%rep (\d+)", l)] if m]
-    if reps:
-        if len(reps) != 1 or len(cm) != 1 or "%assign I 1" not in find:
-            raise LaneCfgError("%s: lane search loop not understood" % sym)
-        nsearch = reps[0] + 1
-    else:
-        want = ["one", "two", "three", "four", "five", "six", "seven"]
-        if [l for l in cm] != ["cmovne idx, [%s]" % w for w in want[:len(cm)]]:
-            raise LaneCfgError("%s: lane search order not understood" % sym)
-        cmps = [int(m.group(1)) for l in find for m in [re.fullmatch(r"cmp qword \[state \+ _ldata \+ (\d+) \* _LANE_DATA_size \+ _job_in_lane\], 0", l)] if m]
-        if cmps != list(range(1, len(cm) + 1)):
-            raise LaneCfgError("%s: lane search compares %s" % (sym, cmps))
-        nsearch = len(cm) + 1
-    # copy to idle lanes
-    copy = rest[c + 1:]
-    if copy[0] != "mov tmp, [state + _args + _data_ptr + 8*idx]" or copy[1] != "%assign I 0":
-        raise LaneCfgError("%s: copy_lane_data not understood" % sym)
-    m = re.fullmatch(r"%rep (\d+)", copy[2])
-    if not m:
+    regval, want, pend = {}, 1, None
+    for l in find[1:]:
+        m = re.fullmatch(r"mov (?:DWORD\()?(\w+?)\)?, (\d+)", l)
+        if m:
+            regval[m.group(1)] = int(m.group(2))
+            continue
+        m = re.fullmatch(r"cmp qword \[state \+ _ldata \+ (\d+) ?\* ?(\d+) \+ _job_in_lane\], 0", l)
+        if m:
+            pend = _prod(m.group(1), m.group(2), lds)
+            continue
+        m = re.fullmatch(r"cmovne idx, (\[?\w+\]?)", l)
+        if m:
+            src = m.group(1)
+            val = (data.get(src[1:-1]) or [None])[0] if src.startswith("[") else regval.get(src)
+            if pend is None or pend != want or val != want:
+                raise LaneCfgError("%s: lane search step %d not understood (lane %s, value %s)" % (sym, want, pend, val))
+            want, pend = want + 1, None
+            continue
+        raise LaneCfgError("%s: lane search: %r not understood" % (sym, l))
+    nsearch = want
+    # copy the live pointer into idle lanes, give them the idle length
+    copy = body[c + 1:z]
+    if "mov tmp, [state + _args + _data_ptr + 8*idx]" not in copy[:2]:
+        raise LaneCfgError("%s: copy_lane_data does not start from the live lane's pointer" % sym)
+    pos = copy.index("mov tmp, [state + _args + _data_ptr + 8*idx]") + 1
+    n, idle = 0, None
+    while pos < len(copy):
+        m = re.fullmatch(r"cmp qword \[state \+ _ldata \+ (\d+) ?\* ?(\d+) \+ _job_in_lane\], 0", copy[pos])
+        mj = re.fullmatch(r"jne (\w+)", copy[pos + 1]) if m and pos + 1 < len(copy) else None
+        if not m or not mj or _prod(m.group(1), m.group(2), lds) != n or (mj.group(1) + ":") not in copy[pos + 2:]:
+            break
+        e = copy.index(mj.group(1) + ":", pos + 2)
+        blk = copy[pos + 2:e]
+        stores = set(blk)
+        ptr = "mov [state + _args + _data_ptr + 8*%d], tmp" % n
+        m1 = [re.fullmatch(r"mov dword \[state \+ _lens \+ 4\*%d\], (0x[0-9A-Fa-f]+)" % n, x) for x in blk]
+        m2 = [re.fullmatch(r"mov dword \[state \+ _lens \+ 4 \+ 8\*%d\], (0x[0-9A-Fa-f]+)" % n, x) for x in blk]
+        if len(blk) != 2 or ptr not in stores:
+            raise LaneCfgError("%s: idle-lane block %d not understood: %s" % (sym, n, blk))
+        if any(m1):
+            this = ("PackShiftOr", _num([x for x in m1 if x][0].group(1)))
+        elif any(m2):
+            this = ("PackHighField", _num([x for x in m2 if x][0].group(1)))
+        else:
+            raise LaneCfgError("%s: idle-lane length store of lane %d not understood: %s" % (sym, n, blk))
+        if idle not in (None, this):
+            raise LaneCfgError("%s: idle lanes get different lengths" % sym)
+        idle = this
+        n += 1
+        pos = e + 1
+    if n == 0:
         raise LaneCfgError("%s: copy_lane_data loop not understood" % sym)
-    r["nlanes"] = int(m.group(1))
-    try:
-        e = copy.index("%endrep")
-    except ValueError:
-        raise LaneCfgError("%s: copy_lane_data loop has no end" % sym)
-    loop = copy[3:e]
-    want = ["cmp qword [state + _ldata + I * _LANE_DATA_size + _job_in_lane], 0", "jne APPEND(skip_,I)",
-            "mov [state + _args + _data_ptr + 8*I], tmp"]
-    if loop[:3] != want or loop[4:] != ["APPEND(skip_,I):", "%assign I (I+1)"]:
-        raise LaneCfgError("%s: body of the copy_lane_data loop not understood: %s" % (sym, loop))
-    m1 = re.fullmatch(r"mov dword \[state \+ _lens \+ 4\*I\], (0x[0-9A-Fa-f]+)", loop[3])
-    m2 = re.fullmatch(r"mov dword \[state \+ _lens \+ 4 \+ 8\*I\], (0x[0-9A-Fa-f]+)", loop[3])
-    if m1:
-        r["idle"] = ("PackShiftOr", _num(m1.group(1)))
-    elif m2:
-        r["idle"] = ("PackHighField", _num(m2.group(1)))
-    else:
-        raise LaneCfgError("%s: idle-lane length store %r not understood" % (sym, loop[3]))
-    if nsearch != r["nlanes"]:
-        raise LaneCfgError("%s: lane search covers %d lanes, the copy loop %d" % (sym, nsearch, r["nlanes"]))
-    after = copy[e + 1:]
+    r["nlanes"], r["idle"] = n, idle
+    if nsearch != n:
+        raise LaneCfgError("%s: lane search covers %d lanes, the copy loop %d" % (sym, nsearch, n))
+    after = copy[pos:]
     # single-buffer threshold
     r["threshold"] = None
-    hit = [(i, m) for i, l in enumerate(after) for m in [re.fullmatch(r"cmp dword \[state \+ _num_lanes_inuse\], (\w+)", l)] if m]
+    hit = [(i, m) for i, l in enumerate(after) for m in [re.fullmatch(r"cmp dword \[state \+ _num_lanes_inuse\], (\d+)", l)] if m]
     if hit:
         i, m = hit[0]
         if len(hit) != 1 or after[i + 1] != "ja mb_processing" or "mb_processing:" not in after:
             raise LaneCfgError("%s: threshold compare not understood" % sym)
-        name = m.group(1)
-        if name not in defines:
-            raise LaneCfgError("%s: threshold macro %s has no value in the job file" % (sym, name))
         sb = after[i + 2:after.index("mb_processing:")]
         if "mov [state + _lens + idx*4], DWORD(idx)" not in sb or sb[-1] != "jmp len_is_0" or \
-                len([l for l in sb if l.startswith("call ")]) != 1:
+                len([l for l in sb if l.startswith("call ")]) != 1 or any(re.match(r"j\w+ ", l) for l in sb[:-1]):
             raise LaneCfgError("%s: single-buffer path not understood: %s" % (sym, sb))
-        r["threshold"] = (name, defines[name])
-        # the min search precedes the compare; the subtraction follows mb_processing
-        r.update(_scan_and_min(after[:i] + after[after.index("mb_processing:"):], tail, sym))
-        zi = [j for j, l in enumerate(after[:i]) if l == "jz len_is_0"]
+        r["threshold"] = ("num_lanes_inuse <=", int(m.group(1)))
+        minpart = after[:i] + after[after.index("mb_processing:") + 1:]
+        jumps = [l for l in after[:i] + after[after.index("mb_processing:"):] if re.match(r"j\w+ ", l)]
     else:
-        # (a bare `mb_processing:` label nothing jumps to is a fall-through)
-        if any(re.match(r"j\w+ ", l) and l != "jz len_is_0" for l in after[:after.index("len_is_0:")] if "len_is_0:" in after):
-            raise LaneCfgError("%s: unexpected branch structure" % sym)
-        r.update(_scan_and_min(after, tail, sym))
-        zi = [j for j, l in enumerate(after) if l == "jz len_is_0"]
-    if len(zi) != 1:
-        raise LaneCfgError("%s: zero-length shortcut (jz len_is_0) not found exactly once" % sym)
-    r.update(_retire(body, sym))
+        minpart = [l for l in after if l != "mb_processing:"]       # (a bare label nothing jumps to is a fall-through)
+        jumps = [l for l in after if re.match(r"j\w+ ", l)]
+    if jumps != ["jz len_is_0"]:
+        raise LaneCfgError("%s: unexpected branches in the min search: %s" % (sym, jumps))
+    r.update(_scan_and_min(minpart, data, sym))
+    r.update(_retire(body, lds, sym))
     return r
 
 
@@ -471,9 +575,8 @@ def config(repo, libdir, hcfg=None):
 
 def _family(repo, hcfg, f, ent, sp, fp, subs, fls):
         algo, fam = f["algo"], f["fam"]
-        defines = hash_cfg.thresholds(repo, algo)
-        s = parse_submit(sp, subs[0], defines)
-        fl = parse_flush(fp, fls[0], defines)
+        s = parse_submit(repo, sp, subs[0])
+        fl = parse_flush(repo, fp, fls[0])
         ini = _init_facts(repo, algo, f["init"])
         # submit and flush must tell the same story about the shared layout
         for a, b, what in (("ent_bits", "push_bits", "stack entry width (submit pop / flush push)"),):
